@@ -33,6 +33,7 @@ structure Conn where
   live : List Nat := []        -- upload temp files present in the cache dir
   created : Nat := 0           -- number of temp files created so far (next id)
   maxLive : Nat := 0
+  written : Nat := 0           -- the largest number of body bytes written to any one upload file so far
 deriving Repr, DecidableEq
 
 def cap : Nat := 8192
@@ -133,6 +134,8 @@ def storeUpload (c : Conn) (fs : FsFault) (got : Bytes) (bad : Option HttpError)
   if fs.createFails then (c, .error (.errorSavingFile "" [])) else
   let id := c.created
   let c := (newFile c).1
+  -- at most `got` is copied into the file (a failing write stops earlier)
+  let c := { c with written := max c.written got.length }
   if fs.writeFails && got.length > 0 then (dropFile c id, .error (.errorSavingFile "" []))
   else match bad with
     | some e => (dropFile c id, .error e)
